@@ -426,6 +426,7 @@ func (st *State) assumeSliceInv(s *SliceV) {
 		app(sBool, nil, "bvsle", s.Len, s.Cap),
 		app(sBool, nil, "bvslt", s.Cap, big),
 		app(sBool, nil, "bvslt", s.Off, big),
+		tImplies(tSame(s.Arr, Term{S: "ref_nil", Sort: sRef}), tSame(s.Cap, bv64(0))),
 	))
 }
 
@@ -542,9 +543,23 @@ func (st *State) havocAll() {
 	st.marks = nil
 }
 
+// embRef is the reference of a struct-valued field embedded in the object at ref. Embedding functions are
+// injective, and their images are disjoint from each other, from nil, and from every allocated object
+// (is_fresh of an embedded reference is a negative code unique to the embedding function).
 func (st *State) embRef(sn string, fieldName string, ref Term) Term {
 	fn := "emb_" + sanitize(sn) + "_" + sanitize(fieldName)
-	st.declareOnce(fn, "(declare-fun "+fn+" (Ref) Ref)")
+	if !st.declared[fn] {
+		st.declareOnce("is_fresh", "(declare-fun is_fresh (Ref) Int)")
+		st.declareOnce("is_fresh_nil", "(assert (= (is_fresh ref_nil) 0))")
+		code, ok := st.x.embCodes[fn]
+		if !ok {
+			code = len(st.x.embCodes) + 1
+			st.x.embCodes[fn] = code
+		}
+		st.declareOnce(fn, "(declare-fun "+fn+" (Ref) Ref)")
+		st.declareOnce(fn+"_inv", "(declare-fun inv_"+fn+" (Ref) Ref)")
+		st.declareOnce(fn+"_ax", fmt.Sprintf("(assert (forall ((r!e Ref)) (! (and (= (inv_%s (%s r!e)) r!e) (= (is_fresh (%s r!e)) (- %d))) :pattern ((%s r!e)))))", fn, fn, fn, code, fn))
+	}
 	return app(sRef, nil, fn, ref)
 }
 
